@@ -15,7 +15,7 @@ RULE = ("namecoin/dogecoin chains whose blocks carry an AuxPoW section iff versi
         "branches of length 0..40 (and 252/253/300 -> 3-byte CompactSize), random masks and parent headers; block versions threshold-1, "
         "threshold, threshold+1, 0xffffffff, 1, mixed within one chain. Real csvdump (+unspent/simplestats sample) with --verify: output "
         "must equal the model, which ignores the section (blocksize = stored length). Negative control: the six other coins with the same "
-        "high-version blocks stored without a section. distinct = (coin, version class, coinbase form, branch length class) signatures")
+        "high-version blocks stored without a section; a third of the directories are XOR-obfuscated (sections read through the XOR reader at unaligned offsets). distinct = (coin, version class, coinbase form, branch length class) signatures")
 
 AUX_COINS = ["namecoin", "dogecoin"]
 
@@ -71,7 +71,9 @@ def case(spec):
     chain, shapes = build(spec)
     work = harness.fresh(os.path.join(spec["work"], "c%d" % spec["n"]))
     d = os.path.join(work, "d")
-    datadir.write_datadir(d, COINS[coin], harness.simple_layout(chain))
+    xrng = random.Random("C12xor|%s" % spec["n"])
+    xor_key = bytes(xrng.randrange(0, 256) for _ in range(xrng.choice([8, 8, 5, 16]))) if spec["n"] % 3 == 0 else None
+    datadir.write_datadir(d, COINS[coin], harness.simple_layout(chain), xor_key=xor_key)
     binary = core.build(spec.get("profile", "release"))
     v, runs = [], 0
     n_aux = sum(1 for _, b in chain if b.auxpow)
@@ -97,7 +99,7 @@ def case(spec):
     v.extend(viol(sig, "%s [coin=%s versions=%s]" % (det, coin, spec["versions"])) for sig, det in oracles.check_csvdump(p, dump, chain, coin))
     shutil.rmtree(work, ignore_errors=True)
     return {"evaluations": runs, "violations": v, "shapes": sorted(shapes),
-            "counters": {"runs": runs, "auxpow_blocks": n_aux, "blocks_without_section": len(chain) - n_aux,
+            "counters": {"runs": runs, "auxpow_blocks": n_aux, "xor_obfuscated_chains": 1 if xor_key else 0, "blocks_without_section": len(chain) - n_aux,
                          "aux_coin_runs" if COINS[coin].auxpow else "control_coin_runs": runs},
             "sample": {"coin": coin, "versions": spec["versions"], "auxpow_blocks": n_aux, "blocks": len(chain)}}
 
